@@ -133,6 +133,15 @@ class C04(Property):
         res.append(self._rest([["wh", 101], ["w", [200]]], [], "none", 0))
         res.append(self._rest(i2, [], "cancel", 2, req="ws"))
         # io.Copy(w, stalled source) / io.WriteString / fmt.Fprintf: D while the copy waits for its source
+        # sub-millisecond timeouts: the context is (all but) born expired
+        for dur in (1, 1000, 500000):
+            res.append(self._rest(s1, [[1, [5]]], "deadline", 0, dur=dur))
+            res.append(self._rest([["flush"], ["w", [200]]], [], "deadline", 0, dur=dur, fl=True))
+        # http.ResponseController: Flush finds timeoutWriter.Flush; SetWriteDeadline finds nothing (no Unwrap)
+        rc = [["rcdl"], ["wh", 404], ["w", [200]], ["rcflush"], ["rcdl"], ["w", [201]], ["rcflush"], ["rcdl"]]
+        for pos in range(0, 7):
+            res.append(dict(self._rest(rc, [], "cancel", pos, fl=True), paths_done=True))
+        res.append(dict(self._rest(rc, [], "cancel", 2, req="ws", fl=True), paths_done=True))
         cp = [["set", 1, 7], ["copy", [[200], [201, 202], [203]]], ["ws", [204]], ["printf", [205]]]
         for fl in (True, False):
             res.append(dict(self._rest(cp, [], "none", 0, fl=fl), paths_done=True))
@@ -154,8 +163,13 @@ class C04(Property):
         for idx, a in enumerate(script):
             def ob():
                 return hobs[hp] if hobs is not None and hp < len(hobs) else None
+            if a[0] == "rcdl":
+                continue                    # ResponseController.SetWriteDeadline: no step, nothing reaches a writer
             if a[0] in ("ws", "printf"):
                 out.append(["w", a[1]])
+                hp += 1
+            elif a[0] == "rcflush":
+                out.append(["flush"])       # ResponseController.Flush finds the writer's Flush method
                 hp += 1
             elif a[0] == "copy":
                 for ch in a[1]:
@@ -197,10 +211,22 @@ class C04(Property):
                     else:
                         out += [[("ws", "printf")[(h // 3 + t) % 2], x[1]] for t, x in enumerate(script[i:j])]
                     i = j
+                elif a[0] == "flush" and (h // 11) % 2 == 0:
+                    out.append(["rcflush"])
+                    i += 1
                 else:
                     out.append(a)
                     i += 1
-            return out
+            # http.NewResponseController(w).SetWriteDeadline(...) before some actions and before the return
+            h //= 13
+            res = []
+            for a in out + [None]:
+                if h % 4 == 0:
+                    res.append(["rcdl"])
+                h = h // 3 + 5
+                if a is not None:
+                    res.append(a)
+            return res
         for c in cases:
             k = c.get("kind")
             if c.get("paths_done"):
@@ -325,7 +351,7 @@ class C04(Property):
         for a in script:
             if a[0] == "wh":
                 return 100 <= a[1] <= 199 and a[1] != 101
-            if a[0] in ("w", "ws", "printf", "copy") or (a[0] == "flush" and fl):
+            if a[0] in ("w", "ws", "printf", "copy") or (a[0] in ("flush", "rcflush") and fl):
                 return False
         return False
 
@@ -490,24 +516,41 @@ class C04(Property):
     # a real rest.Server with several routes ---------------------------------------
     GROUP_OPTS = [[], [], [["timeout", HOUR]], [["timeout", 2 * HOUR]], [["sse"]], [["timeout", HOUR], ["sse"]],
                   [["sse"], ["timeout", HOUR]], [["timeout", -5]], [["timeout", 0]],
-                  [["timeout", HOUR], ["timeout", HOUR // 2]], [["timeout", SHORT20]], [["timeout", SHORT20]]]
+                  [["timeout", HOUR], ["timeout", HOUR // 2]], [["timeout", SHORT20]], [["timeout", SHORT20]],
+                  [["timeout", 1]], [["timeout", 500000]]]          # 1 ns, half a millisecond
 
     def _req_hdrs(self, rng):
+        """request headers: names and values are inputs — the literal exemption headers, spellings of the
+        NAME that canonicalise to it, and values that are exempt only by a more generous reading"""
         (un, uv), (an, av) = self.consts["exempt"]
         x = rng.random()
-        if x < 0.5:
+        if x < 0.4:
             return []
-        if x < 0.62:
+        if x < 0.5:
             return [[un, uv]]
-        if x < 0.74:
+        if x < 0.6:
             return [[an, av]]
-        if x < 0.8:
+        if x < 0.65:
+            return [[un.lower(), uv]]                       # "upgrade": canonicalised by Header.Add
+        if x < 0.7:
+            return [[an.upper(), av]]                       # "ACCEPT"
+        if x < 0.75:
             return [[un, uv.capitalize()]]                  # "Websocket": not the literal the code compares with
-        if x < 0.86:
+        if x < 0.79:
+            return [[un, uv.upper()]]                       # "WEBSOCKET"
+        if x < 0.83:
             return [[an, av + ", text/html"]]
-        if x < 0.92:
+        if x < 0.87:
+            return [[an, "text/html"], [an, av]]            # two values: Header.Get sees the first only
+        if x < 0.9:
+            return [[an, av], [an, "text/html"]]            # ... here the first is the exempt one
+        if x < 0.94:
             return [[an, "application/json"], ["Connection", "Upgrade"]]
         return [[un, uv], [an, av]]
+
+    @staticmethod
+    def _canon(name):
+        return "-".join(p.capitalize() for p in name.split("-"))
 
     def _srv_dur(self, c, q):
         """the timeout the model expects for request q (mirror of Model.eng_route_dur, generation only)"""
@@ -525,7 +568,7 @@ class C04(Property):
         (un, uv), (an, av) = self.consts["exempt"]
         h = {}
         for k, v in q["hdrs"]:
-            h.setdefault(k, v)
+            h.setdefault(self._canon(k), v)
         return h.get(un) == uv or h.get(an) == av
 
     def _srv_amb(self, q):
@@ -533,10 +576,10 @@ class C04(Property):
         if not q.get("hdrs") or self._srv_exempt(q):
             return False
         (un, uv), (an, av) = self.consts["exempt"]
-        h = {}
+        allv = {}
         for k, v in q["hdrs"]:
-            h.setdefault(k, v)
-        return uv.lower() in h.get(un, "").lower() or av.lower() in h.get(an, "").lower()
+            allv[self._canon(k)] = allv.get(self._canon(k), "") + "," + v
+        return uv.lower() in allv.get(un, "").lower() or av.lower() in allv.get(an, "").lower()
 
     def _gen_srv(self, rng, n):
         cases = []
@@ -566,7 +609,7 @@ class C04(Property):
                 elif wrapped and dur > SHORT20 and rng.random() < 0.15:
                     q["parent_ns"] = SHORT20                 # the caller's deadline is earlier than now+timeout
                     q["deadline"] = True
-                elif wrapped and dur == SHORT20:
+                elif wrapped and dur <= SHORT20:
                     q["deadline"] = True
                     if q["parent_ns"] is not None and q["parent_ns"] < HOUR:
                         q["parent_ns"] = 3 * HOUR
@@ -941,12 +984,14 @@ class C04(Property):
                 items.append([900 + idx, [950 + idx]])
         return items, extra
 
-    def _wfields(self, w, outer=None):
+    def _wfields(self, w, outer=None, wrapped=True):
         """status snap live body infos flushes code extra late foreign of a WOut; [outer] = the Code of a real
         response.WithCodeResponseWriter in front (server cases), which then is THE outer record"""
         snap, e1 = self._hx(w["snap"], w.get("snap_x"))
         live, e2 = self._hx(w["live"], w.get("live_x"))
         extra = e1 + e2
+        if wrapped:
+            extra += w.get("rc", 0)     # a wrapped handler has no way to the real writer's SetWriteDeadline
         infos = []
         for inf in w["infos"]:
             hs, e = self._hx(inf["hdrs"], inf.get("x"))
@@ -1024,14 +1069,14 @@ class C04(Property):
             if o.get("stuck", -1) == i:
                 sout = "SoWait"      # one of its handler's actions hung: the request never completed
             dmode = "KDeadline" if rin.get("deadline") else dk.get(i)
-            hdrs = clist(["(%s, %s)" % (self._bstr(k), self._bstr(v)) for k, v in rin.get("hdrs", [])])
+            hdrs = clist(["(%s, %s)" % (self._bstr(self._canon(k)), self._bstr(v)) for k, v in rin.get("hdrs", [])])
             rs.append("(mkSR %s)" % " ".join([
                 cbool(rin.get("fl", False)), self._hdrs(rin["h0"]),
                 clist([self._act(a) for a in self._expand(
                     rin["script"], [x[1:] for x in o["hobs"] if x[0] == i][o.get("_skip", {}).get(i, 0):])]),
                 copt(dmode), hdrs, cbool(self._srv_amb(rin)), self._optz(self._par(rin)),
                 "%d%%nat" % rin.get("group", 0), sout]
-                + self._wfields(ro["w"], ro.get("outer_code")) +
+                + self._wfields(ro["w"], ro.get("outer_code"), ro["wrapped"]) +
                 [cbool(ro["wrapped"]), self._optz(ro["dl_seen_ns"] if ro["has_dl"] else None),
                  cz(ro["t0_ns"]), cz(ro["t1_ns"])]))
         sched = clist(["(%d%%nat, %s)" % (i, self._ev(e)) for i, e in o["sched"]])
@@ -1147,7 +1192,7 @@ class C04(Property):
             self._optz(self._par(c)), copt(_kind(c["d"]["mode"])),
             cbool(o["wrapped"]), clist([self._ev(e) for e in o["sched"]]),
             clist([clist([self._ev(e) for e in alt]) for alt in self._alts(c, o["sched"])]),
-            clist([self._ares(x) for x in o["hobs"]]), sout] + self._wfields(o["w"]) + [
+            clist([self._ares(x) for x in o["hobs"]]), sout] + self._wfields(o["w"], None, o["wrapped"]) + [
             self._optz(o["dl_seen_ns"] if o["has_dl"] else None), "0", cz(o["t1_ns"]), cz(o["ret_at_d"]),
         ]
         return "CRest (mkRest %s)" % " ".join(fields)
@@ -1231,7 +1276,7 @@ class C04(Property):
                 fs.append("rest:has_ctx_check")
             if any(a[0] == "panic" for a in case["script"]):
                 fs.append("rest:has_panic")
-            for kind_ in ("copy", "ws", "printf"):
+            for kind_ in ("copy", "ws", "printf", "rcflush", "rcdl"):
                 if any(a[0] == kind_ for a in case["script"]):
                     fs.append("rest:" + kind_)
             if any(a[0] == "copy" for a in case["script"]) and obs["wrapped"] and case["d"]["mode"] in ("cancel", "deadline"):
@@ -1242,7 +1287,7 @@ class C04(Property):
                     if a[0] == "copy" and at <= pos < at + n_:
                         fs.append("rest:deadline_inside_copy")
                     at += n_
-            if case.get("fl") and any(a[0] == "flush" for a in case["script"]):
+            if case.get("fl") and any(a[0] in ("flush", "rcflush") for a in case["script"]):
                 fs.append("rest:flush")
                 s = obs["sched"]
                 if obs["wrapped"] and "St" in s and obs["w"]["flushes"] > 0:
@@ -1273,7 +1318,7 @@ class C04(Property):
                     fs.append("srv:outcome=%s" % (st if st in (499, 503) else r["sout"]))
                     if q["parent_ns"] is not None and q["parent_ns"] < dur:
                         fs.append("srv:caller_deadline_earlier")
-                if q["fl"] and any(a[0] == "flush" for a in q["script"]):
+                if q["fl"] and any(a[0] in ("flush", "rcflush") for a in q["script"]):
                     fs.append("srv:flush")
         if case["kind"] == "seq":
             fs.append("seq:reqs=%d" % len(case["reqs"]))
